@@ -77,6 +77,8 @@ class Smt:
         """b: int or BV64 -> fp value (python int bits stay ints)"""
         if isinstance(b, int):
             return b
+        if z3.is_fp(b):
+            return b            # a word that already carries its float view (element of a transmuted &[f64] / &[u64] slice)
         k = b.get_id()
         e = self.fp_of_bits.get(k)
         if e is not None:
@@ -92,6 +94,8 @@ class Smt:
         """fp value (int bits or z3 FP expr) -> bits (int or BV64).  NaN payload is unconstrained."""
         if isinstance(e, int):
             return e
+        if z3.is_bv(e):
+            return e            # already a bit pattern (see fp_from_bits)
         k = e.get_id()
         b = self.bits_of_fp.get(k)
         if b is not None:
